@@ -60,3 +60,11 @@ package httpendpoint
 //@   ensures frs.ret1[old(frs.n)] == nil ==> rsu.n == old(rsu.n) + 1 && rsu.arg1[old(rsu.n)] == frs.ret0[old(frs.n)] && rsu.arg2[old(rsu.n)] == fetcherID(rsf) && ret0 == nil
 //@   ensures frs.ret1[old(frs.n)] != nil && !Is(frs.ret1[old(frs.n)], context.Canceled) && (Is(frs.ret1[old(frs.n)], config2.ErrEmptyRuleSet) || (!Is(frs.ret1[old(frs.n)], heimdall.ErrInternal) && !Is(frs.ret1[old(frs.n)], heimdall.ErrConfiguration))) ==> rsu.n == old(rsu.n) + 1 && rsu.arg2[old(rsu.n)] == fetcherID(rsf) && ret0 == nil
 //@   assert at call ruleSetsUpdated#1@6a6926aa.1: callarg1 != nil && (frs.ret1[frs.n - 1] != nil ==> len(callarg1.Rules) == 0 && callarg1.MetaData.Source == "http_endpoint:" + fetcherID(rsf))
+
+// C07 "concurrent changes ... all take effect (none is lost or half overwritten)": one run of
+// watchChanges looks the state of its source up and acts on it afterwards; runs for one source must
+// not overlap, which is what the scheduler's singleton mode (a run that is due while the previous
+// one is still busy is rescheduled - gocron's documented behaviour, trusted) is configured for.
+//@ func newProvider
+//@   props C07
+//@   callsites WithSingletonMode 1
